@@ -552,6 +552,11 @@ unsigned cmb_random_geometric(const double p)
 
     unsigned x = (unsigned)ceil(cmb_random_std_exponential() / denom);
 
+    /* At least the one trial that succeeds, also for p = 1 (infinite denom) */
+    if (x == 0u) {
+        x = 1u;
+    }
+
     cmb_assert_debug(x >= 1u);
     return x;
 }
@@ -643,6 +648,11 @@ unsigned cmb_random_loaded_dice(const unsigned n, const double *pa)
         if (x < q) {
             break;
         }
+    }
+
+    /* The probabilities may sum to slightly less than one, stay on the dice */
+    if (ui == n) {
+        ui = n - 1u;
     }
 
     cmb_assert_debug(ui < n);
